@@ -128,7 +128,7 @@ func rulePARSE1(w *World) []Ob {
 			return
 		}
 		allInstrs(fn, func(in2 ssa.Instruction) {
-			if c, ok := in2.(*ssa.Call); ok && c.Common().StaticCallee() != nil && c.Common().StaticCallee().Name() == "validateSpaces" && guardedNil(c, r) {
+			if c, ok := in2.(*ssa.Call); ok && c.Common().StaticCallee() != nil && fname(c.Common().StaticCallee()) == "validateSpaces" && guardedNil(c, r) {
 				okV = true
 			}
 		})
@@ -161,7 +161,7 @@ func ruleSPLIT1(w *World) []Ob {
 				if calleeFullName(c.Common()) == "(*bufio.Scanner).Scan" {
 					hasScan = true
 				}
-				if c.Common().StaticCallee() != nil && c.Common().StaticCallee().Name() == "isRootBlockBeginning" {
+				if c.Common().StaticCallee() != nil && fname(c.Common().StaticCallee()) == "isRootBlockBeginning" {
 					hasRootTest = true
 				}
 			}
@@ -212,7 +212,7 @@ func ruleSPLIT1(w *World) []Ob {
 				if x == scan {
 					continue
 				}
-				if x.Common().StaticCallee() != nil && x.Common().StaticCallee().Name() == "isRootBlockBeginning" && pol {
+				if x.Common().StaticCallee() != nil && fname(x.Common().StaticCallee()) == "isRootBlockBeginning" && pol {
 					if tc, ok := x.Common().Args[0].(*ssa.Call); ok && calleeFullName(tc.Common()) == "(*bufio.Scanner).Text" {
 						continue
 					}
